@@ -197,6 +197,7 @@ theorem unselected_branch_irrelevant {ρ f x y sp v} (y' : AST) (hf : tagOf f = 
   | addInt _ _ _ => simp [tagOf] at hf
   | mulInt _ _ _ => simp [tagOf] at hf
   | ltInt _ _ _ => simp [tagOf] at hf
+  | mkList _ => simp [tagOf] at hf
 
 theorem unselected_branch_irrelevant' {ρ f x y sp v} (x' : AST) (hf : tagOf f = none) (hc : BN ρ f (.bool false))
     (h : BN ρ (.call f [x, y] sp) v) : BN ρ (.call f [x', y] sp) v := by
@@ -207,6 +208,7 @@ theorem unselected_branch_irrelevant' {ρ f x y sp v} (x' : AST) (hf : tagOf f =
   | addInt _ _ _ => simp [tagOf] at hf
   | mulInt _ _ _ => simp [tagOf] at hf
   | ltInt _ _ _ => simp [tagOf] at hf
+  | mkList _ => simp [tagOf] at hf
 
 /-- … and so does the evaluator's result (adequacy): the two closed programs evaluate to the same integer, whatever the
 unselected branch is -/
@@ -223,6 +225,62 @@ theorem unused_argument_irrelevant {ρ f sp b ρd n spn} (args args' : List AST)
     BN ρ (.call f args' sp) (.int n) := by
   subst hb
   exact BN.call hf hc BN.lit
+
+/-! ### lists: lazy data (C03) -/
+
+/-- `ㅁㄹ` evaluates none of its arguments: its by-name value is the list of the argument *expressions* -/
+theorem list_construction_evaluates_nothing {ρ n spf args sp} (hn : encodeNumber n = [4, 3]) :
+    BN ρ (.call (.lit n spf) args sp) (.list (args.map (fun a => (a, ρ)))) := BN.mkList hn
+
+/-- selecting from a list literal evaluates the selected element expression only: for a position `i` inside the list, the
+value of `i (e₀ … eₖ ㅁㄹ) ㅎㄴ` is the by-name value of `eᵢ` (negative positions count from the end) -/
+theorem list_selection {ρ n spf args spl a sp i e v} (hn : encodeNumber n = [4, 3])
+    (ha : BN ρ a (.int i)) (hidx : pyIndex args i = some e) (hv : BN ρ e v) :
+    BN ρ (.call (.call (.lit n spf) args spl) [a] sp) v := by
+  refine BN.index (by simp [tagOf]) (BN.mkList hn) ha ?_ hv
+  rw [pyIndex_map, hidx]; rfl
+
+/-- **an element that is not selected is irrelevant**: replacing every other element of the list by *any* expressions —
+ones that raise, diverge or are ill-scoped — leaves the by-name value of the selection unchanged, as long as the selected
+position still holds the same expression … -/
+theorem unselected_elements_irrelevant {ρ n spf args args' spl a sp i e v} (hn : encodeNumber n = [4, 3])
+    (ha : BN ρ a (.int i)) (hidx : pyIndex args i = some e) (hidx' : pyIndex args' i = some e)
+    (h : BN ρ (.call (.call (.lit n spf) args spl) [a] sp) v) :
+    BN ρ (.call (.call (.lit n spf) args' spl) [a] sp) v := by
+  have hv : BN ρ e v := by
+    cases h with
+    | index _ hl ha' hi hv =>
+      cases hl with
+      | mkList _ =>
+        have := ha.deterministic ha'; cases this
+        rw [pyIndex_map, hidx] at hi
+        cases hi
+        exact hv
+      | call hf _ _ => simp [tagOf] at hf
+      | sel hf _ _ => simp [tagOf] at hf
+      | index hf _ _ _ _ => simp [tagOf] at hf
+    | call _ hl _ =>
+      cases hl with
+      | call hf _ _ => simp [tagOf] at hf
+      | sel hf _ _ => simp [tagOf] at hf
+      | index hf _ _ _ _ => simp [tagOf] at hf
+  exact list_selection hn ha hidx' hv
+
+/-- … and so does the evaluator's result (adequacy): both closed programs evaluate to the same integer -/
+theorem evaluator_ignores_unselected_elements (n : Int) (spf : Span) (args args' : List AST) (spl : Span) (a : AST) (sp : Span)
+    (i : Int) (e : AST) (m : Int) (w : World) (hn : encodeNumber n = [4, 3])
+    (ha : BN (.mk [] []) a (.int i)) (hidx : pyIndex args i = some e) (hidx' : pyIndex args' i = some e)
+    (h : BN (.mk [] []) (.call (.call (.lit n spf) args spl) [a] sp) (.int m)) :
+    ∃ (hh : Nat) (s' : Store), Eval (alloc initStore (.call (.call (.lit n spf) args' spl) [a] sp) ⟨[], []⟩) w
+        (.frame initStore.cells.size) hh (.ok (.arg (.strict (.int m)))) s' w :=
+  by_name_program _ _ w (unselected_elements_irrelevant hn ha hidx hidx' h)
+
+/-- a closed instance: `ㄴ (<bomb> ㄷ ㅁㄹㅎㄷ) ㅎㄴ` — element 1 of a list whose element 0 cannot be evaluated at all — is 2, in
+the reference semantics and (adequacy) for the evaluator -/
+example (w : World) :
+    ∃ (hh : Nat) (s' : Store), Eval (alloc initStore (.call (.call (.lit (-28) ⟨0, 0, 0⟩) [.bomb, .lit 2 ⟨0, 0, 0⟩] ⟨0, 0, 0⟩)
+        [.lit 1 ⟨0, 0, 0⟩] ⟨0, 0, 0⟩) ⟨[], []⟩) w (.frame initStore.cells.size) hh (.ok (.arg (.strict (.int 2)))) s' w :=
+  by_name_program _ _ w (list_selection (e := .lit 2 ⟨0, 0, 0⟩) (by decide +kernel) BN.lit rfl BN.lit)
 
 /-! ### the executable reference evaluator -/
 
